@@ -88,6 +88,27 @@ PROPS["C12"] = {
     "assumptions": ["map printing shows key:value pairs in insertion order as in the docs' examples"],
 }
 
+PROPS["C09"] = {
+    "pkg": "p09",
+    "level": "exploration",
+    "level_text": "Generated alias histories (~2.4*10^4 quick / ~5*10^5 thorough): 3-15 steps that create aliases by every route the language "
+                  "offers and then update through one name, with all live variables plus err/errmsg printed after every step and compared "
+                  "with the reference interpreter (copy for basic values, reference for composites also inside any, fresh containers for "
+                  "slice/concatenation/repetition with deep copy for repetition).",
+    "level_note": "Oracle = reference interpreter harness/m, where basic values are Go values (cannot alias) and composites are pointers. "
+                  "Values stored into any-typed slots of existing containers are excluded (cyclic values crash the host, open finding).",
+    "technique": "property-based differential testing over generated alias/update/observe sequences (rapid + reference interpreter)",
+    "tests": [
+        {"name": "TestProp", "quick": {"shards": 8, "checks": 3000}, "thorough": {"shards": 16, "checks": 30000}},
+    ],
+    "rule": "cases: programs over variables of 13 types (num,string,bool,[]num,[][]num,[]bool,[]string,{}num,{}bool,{}string,{}[]num,any,[]any); "
+            "alias creation by :=, typed declaration + =, =, array/map literal containing a variable, element/field store, element read, "
+            "identity function (parameter and return), variadic pack, slice/+/*, into any, loop variable, and err/errmsg captured by six "
+            "routes; updates by rebinding, index store, field store, del, inside a callee, str2num/str2bool success and failure, "
+            "explicit err/errmsg assignment. Non-trivial = at least one alias-making step and one update step; distinct by source text.",
+    "assumptions": [],
+}
+
 NOT_APPLICABLE = {}
 
 ENGINES = [
